@@ -74,17 +74,30 @@ theorem model_lag0 {n q : ℕ} (S : XM.Mat n q ℝ) :
     (XM.lagCov (ρ := ℝ) S 0).toMatrix = (((n - 1 : ℕ) : ℝ))⁻¹ • ((S.toMatrix)ᵀ * S.toMatrix) :=
   XP.OpaM.lagCov_zero S
 
-/-- **opa_scores_uncorrelated_equal_norm on the executable model** -/
+/-- **opa_scores_uncorrelated_equal_norm on the executable model**: whatever decomposition of `C0` the solver returned (also an
+arbitrary rotation inside a pair of PCs with equal variance), `Cinv = (U√s)⁻¹` whitens `C0` as `Cinv C0 Cinvᵀ = 1`
+(`model_inverse_factor_whitens`) and the returned series are uncorrelated with equal norm -/
 theorem model_scores_uncorrelated_equal_norm {n p q k : ℕ} (S : XM.Mat n q ℝ) (C : XM.Mat p q ℝ) (tauMax : ℕ) (Cinv : XM.Mat q q ℝ)
     (Ue : XM.Mat q k ℝ) (lam : Fin k → ℝ) (hn : 1 < n)
-    (hW : (Cinv.toMatrix)ᵀ * (XM.lagCov (ρ := ℝ) S 0).toMatrix * Cinv.toMatrix = 1) (hU : (Ue.toMatrix)ᵀ * Ue.toMatrix = 1) :
+    (hW : Cinv.toMatrix * (XM.lagCov (ρ := ℝ) S 0).toMatrix * (Cinv.toMatrix)ᵀ = 1) (hU : (Ue.toMatrix)ᵀ * Ue.toMatrix = 1) :
     ((XM.opaFit S C tauMax Cinv Ue lam).scores.toMatrix)ᵀ * (XM.opaFit S C tauMax Cinv Ue lam).scores.toMatrix
       = (((n - 1 : ℕ) : ℝ)) • (1 : Matrix (Fin k) (Fin k) ℝ) :=
   XP.OpaM.model_scores_gram S C tauMax Cinv Ue lam hn hW hU
 
-/-- the matrix the model hands to the symmetric eigen-solver is symmetric (for a symmetric `Cinv`), so `eigh` applies -/
-theorem model_target_symmetric {q : ℕ} (Cinv M : XM.Mat q q ℝ) (hC : (Cinv.toMatrix)ᵀ = Cinv.toMatrix) :
+/-- the hypothesis of the previous theorem follows from the oracle specifications alone: `L Lᵀ = C0` and `Cinv L = 1` -/
+theorem model_inverse_factor_whitens {q : ℕ} (C0 L Cinv : Matrix (Fin q) (Fin q) ℝ) (hL : L * Lᵀ = C0) (hI : Cinv * L = 1) :
+    Cinv * C0 * Cinvᵀ = 1 :=
+  XP.OpaM.whitens_of_factor C0 L Cinv hL hI
+
+/-- non-vacuity with a NON-symmetric inverse factor: `C0 = 1`, `L` a rotation by 90°, `Cinv = Lᵀ` -/
+example : (!![0, -1; 1, 0] : Matrix (Fin 2) (Fin 2) ℝ) * (!![0, -1; 1, 0] : Matrix (Fin 2) (Fin 2) ℝ)ᵀ = 1
+    ∧ (!![0, 1; -1, 0] : Matrix (Fin 2) (Fin 2) ℝ) * (!![0, -1; 1, 0] : Matrix (Fin 2) (Fin 2) ℝ) = 1 := by
+  constructor <;> · ext i j; fin_cases i <;> fin_cases j <;> simp [Matrix.mul_apply, Fin.sum_univ_two]
+
+/-- the matrix the model hands to the symmetric eigen-solver is symmetric for EVERY inverse factor `Cinv`, so `eigh` applies (the
+code before the repair 5ec1b91 contracted `Cinv` over the wrong index, which is symmetric only for a symmetric `Cinv`) -/
+theorem model_target_symmetric {q : ℕ} (Cinv M : XM.Mat q q ℝ) :
     ((XM.opaTarget (ρ := ℝ) Cinv M).toMatrix)ᵀ = (XM.opaTarget (ρ := ℝ) Cinv M).toMatrix :=
-  XP.OpaM.model_target_symmetric Cinv M hC
+  XP.OpaM.model_target_symmetric Cinv M
 
 end C19
